@@ -44,6 +44,21 @@ def _maxval_precision(bound: RealFloat, exp: int) -> int:
     return bound.c.bit_length()
 
 
+def _bound_product(a: RealFloat | float, b: RealFloat | float) -> RealFloat | float:
+    """
+    Product of two bounds of an :class:`AbstractFormat`.
+
+    A ``float`` bound is ``+/-inf`` and means *unbounded*; a zero bound on the
+    other side pins every product to zero, so the result is zero rather than
+    the ``nan`` of ``0 * inf``.
+    """
+    if isinstance(a, RealFloat) and a.is_zero() and isinstance(b, float):
+        return RealFloat.from_int(0)
+    if isinstance(b, RealFloat) and b.is_zero() and isinstance(a, float):
+        return RealFloat.from_int(0)
+    return a * b
+
+
 @default_repr
 class AbstractFormat:
     """
@@ -308,8 +323,17 @@ class AbstractFormat:
         # two like-sign corners give the maximum and the two cross corners the
         # minimum -- `max` on the latter would claim the *tighter* of the two
         # and miss the product it names: `[-1,1] * [-2,1]` reaches -2
-        pos_bound = max(self.pos_bound * other.pos_bound, self.neg_bound * other.neg_bound)
-        neg_bound = min(self.pos_bound * other.neg_bound, self.neg_bound * other.pos_bound)
+        # A zero bound times an unbounded one is zero, not `0 * inf = nan`: the
+        # `inf` says the other side has no largest value, and every value it does
+        # have gives zero.
+        pos_bound = max(
+            _bound_product(self.pos_bound, other.pos_bound),
+            _bound_product(self.neg_bound, other.neg_bound),
+        )
+        neg_bound = min(
+            _bound_product(self.pos_bound, other.neg_bound),
+            _bound_product(self.neg_bound, other.pos_bound),
+        )
 
         # special values: 0 is representable everywhere, so `inf * 0 = NaN` is
         # reachable whenever either operand has an infinity -- the NaN result is
